@@ -15,6 +15,8 @@ import (
 	"os"
 	"path/filepath"
 	"strconv"
+	"sync"
+	"sync/atomic"
 	"time"
 
 	"com.tuntun.rangers/node/src/core"
@@ -180,7 +182,15 @@ func child(args []string) {
 	nops, _ := strconv.Atoi(args[3])
 	helper := &env.Helper{}
 	rejectID := []byte{}
-	helper.RejectGroup = func(g *types.Group) bool { return len(rejectID) > 0 && bytes.Equal(g.Id, rejectID) }
+	var slowCheck int32 // when set, the consensus check takes a while (as the real signature check does)
+	var checkCalls int64
+	helper.RejectGroup = func(g *types.Group) bool {
+		if atomic.LoadInt32(&slowCheck) != 0 {
+			n := atomic.AddInt64(&checkCalls, 1)
+			time.Sleep(time.Duration(200+(n*7919)%1800) * time.Microsecond)
+		}
+		return len(rejectID) > 0 && bytes.Equal(g.Id, rejectID)
+	}
 	env.BootCore(env.Forks{}, helper)
 	gc := core.GetGroupChain()
 	rng := r.Rand("c19", seq, seg)
@@ -215,6 +225,60 @@ func child(args []string) {
 		parent := listedID(rng.Intn(len(ref.List)))
 		choice := rng.Intn(100)
 		switch {
+		case choice < 7: // the same valid successor arrives twice at once (consensus + sync)
+			g := newGroup(rng, lastID, parent, uint64(10+op))
+			g2 := *g
+			h2 := *g.Header
+			g2.Header = &h2
+			logop("concurrent-double-add " + hx(g.Id))
+			atomic.StoreInt32(&slowCheck, 1)
+			var wg sync.WaitGroup
+			var e1, e2 error
+			wg.Add(2)
+			go func() { defer wg.Done(); e1 = gc.AddGroup(g) }()
+			go func() { defer wg.Done(); e2 = gc.AddGroup(&g2) }()
+			wg.Wait()
+			atomic.StoreInt32(&slowCheck, 0)
+			r.Count("concurrent_episodes", 1)
+			if e1 == nil || e2 == nil {
+				ref.List = append(ref.List, hx(g.Id))
+				r.Count("adds_accepted", 1)
+			}
+			if e1 == nil && e2 == nil {
+				k.fail("C19:concurrent:same-group-added-twice", "two simultaneous AddGroup calls for the same group both succeeded")
+			}
+		case choice < 14: // a valid successor arrives while the fork switch removes the last group
+			if len(ref.List) < 2 {
+				continue
+			}
+			g := newGroup(rng, lastID, parent, uint64(10+op))
+			logop("concurrent-add-vs-remove-last " + hx(g.Id))
+			atomic.StoreInt32(&slowCheck, 1)
+			var wg sync.WaitGroup
+			var e1 error
+			var removed bool
+			wg.Add(2)
+			go func() { defer wg.Done(); e1 = gc.AddGroup(g) }()
+			go func() {
+				defer wg.Done()
+				time.Sleep(time.Duration(rng.Intn(1500)) * time.Microsecond)
+				removed = core.VerifRemoveLastGroup()
+			}()
+			wg.Wait()
+			atomic.StoreInt32(&slowCheck, 0)
+			r.Count("concurrent_episodes", 1)
+			switch {
+			case e1 == nil && removed:
+				// both succeeded: only the order add -> remove(g) is possible (after a removal the
+				// group's predecessor is no longer the last group), so the list is unchanged
+				r.Count("concurrent_add_then_remove", 1)
+			case e1 == nil:
+				ref.List = append(ref.List, hx(g.Id))
+				r.Count("adds_accepted", 1)
+			case removed:
+				ref.List = ref.List[:len(ref.List)-1]
+				r.Count("removes", 1)
+			}
 		case choice < 38: // valid successor
 			g := newGroup(rng, lastID, parent, uint64(10+op))
 			logop("add-valid " + hx(g.Id))
@@ -392,10 +456,10 @@ func main() {
 	r.Finish(mon.Coverage{
 		Evaluations:        r.Get("operations"),
 		DistinctNontrivial: int64(r.DistinctCount("nontrivial_sequences")),
-		Rule: "seeded sequences of group-chain operations (valid add, wrong predecessor, unknown parent, duplicate id, consensus-rejected, remove last, remove above ancestor, re-add removed), " +
+		Rule: "seeded sequences of group-chain operations (valid add, wrong predecessor, unknown parent, duplicate id, consensus-rejected, remove last, remove above ancestor, re-add removed, plus concurrent episodes: the same group added twice at once, an add racing the fork switch's removal, with a slow consensus check), " +
 			"each sequence split into segments run by fresh processes over the same stores (restart = process death without Close + InitCore); all clauses of the property evaluated after every operation and after every restart; " +
 			"non-trivial: sequences with a remove followed by a valid add; distinct by sequence index (PRNG stream)",
 		Assumptions: []string{"stub ConsensusHelper accepts every group except the ones the workload marks", "restart is a process death (OS page cache survives), not a power loss"},
-		MustObserve: []string{"adds_accepted", "removes", "restarts", "invariant_evaluations", "height_lookups"},
+		MustObserve: []string{"adds_accepted", "removes", "restarts", "invariant_evaluations", "height_lookups", "concurrent_episodes"},
 	})
 }
